@@ -53,11 +53,11 @@ func gen(t *rapid.T) Case {
 		CliDirect:     rapid.Bool().Draw(t, "cli_direct"),
 		Link:          rapid.SampledFrom([]string{"frame", "bytes"}).Draw(t, "link"),
 		CtxBuf:        rapid.Bool().Draw(t, "ctx_buf"),
-		SrvBuf:        rapid.SampledFrom([]int{0, 0, 64, 4096, 1 << 20}).Draw(t, "srv_buf"),
+		SrvBuf:        rapid.SampledFrom([]int{0, 0, 64, 100, 3000, 4096, 5000, 70000, 1 << 20}).Draw(t, "srv_buf"),
 	}
 	if c.M.Link == "bytes" {
 		c.M.Chunk = rapid.SampledFrom([]int{0, 0, 7, 4096}).Draw(t, "chunk")
-		c.M.CliBuf = rapid.SampledFrom([]int{0, 64, 4096, 1 << 20}).Draw(t, "cli_buf")
+		c.M.CliBuf = rapid.SampledFrom([]int{0, 64, 100, 3000, 4096, 5000, 1 << 20}).Draw(t, "cli_buf")
 	}
 	c.FreeCtx = c.M.CtxBuf && rapid.Bool().Draw(t, "free_ctx")
 	nw := rapid.IntRange(1, 4).Draw(t, "workers")
@@ -67,6 +67,13 @@ func gen(t *rapid.T) Case {
 	}
 	// a few size classes dominate so that pool classes are reused
 	hot := []int{genSize(t), genSize(t)}
+	if c.M.SrvBuf > 0 && c.M.SrvBuf < 100000 && rapid.Bool().Draw(t, "hot_near_buf") {
+		// payloads just above the configured buffer size but within its pool size class
+		hot[0] = c.M.SrvBuf + rapid.IntRange(-40, 600).Draw(t, "near_buf")
+		if hot[0] < 0 {
+			hot[0] = 16
+		}
+	}
 	for w := 0; w < nw; w++ {
 		var items []Item
 		for i := 0; i < total/nw+1; i++ {
